@@ -13,14 +13,18 @@
      ftyp/moov/mdat/free/skip/meta/meco, at least one moov (payload within max_metadata_size) and one mdat exist and
      every mdat lies in the one media run; and "no metadata" is returned exactly when the last moov starts before the
      first mdat.  Proved with the relational program logic of Lemmas/Tri.lean (Lemmas/ScanRel.lean, TopRel.lean).
-  The rest of `accepted ↔ Rules` (the moov-tree part of the rules, and the converse direction: every file meeting
-  the rules is accepted unless a rewrite overflows) is evaluated on the real code by `Spec_C05` for every generated
-  case (exhaustive top-level layouts up to length 4/5 over a 9-letter alphabet, header pathologies, every
+   * `C05_accept_rules` (soundness in full): every accepted input satisfies `Rules` of the independent specification,
+     including the moov-tree clause — each moov's children are a clean box sequence with at least one trak, each trak
+     has exactly one mdia > minf > stbl chain with exactly one version-0 stco xor co64 whose count fills its box, below
+     4 GiB (Lemmas/TreeRel.lean relates the model's lazily parsed tree to the walker region by region).
+  The converse direction of `accepted ↔ Rules` (every file meeting the rules is accepted unless a rewrite overflows)
+  is evaluated on the real code by `Spec_C05` for every generated case (exhaustive top-level layouts up to length 4/5 over a 9-letter alphabet, header pathologies, every
   moov-tree rule broken in turn, all truncation points of selected files).
 -/
 import MediaSan.Mp4.Sanitize
 import MediaSan.Generated.Mp4Consts
 import MediaSan.Lemmas.TopRel
+import MediaSan.Lemmas.RulesAll
 namespace MediaSan.Props.C05
 open MediaSan MediaSan.Mp4
 
@@ -174,8 +178,8 @@ theorem C05_ftyp_len (b : Bytes) :
     exact ⟨_, rfl⟩
 
 /-- Soundness of the documented top-level rules: nothing outside them is accepted — for every stream, configuration
-    and kind of cursor.  `RulesTop` is `Rules` of Spec/Mp4Rules.lean without the moov-tree clause of `moovOk` (whose
-    payload bound it keeps); the walker's verdict `clean` is the "sequence of complete top-level boxes". -/
+    and kind of cursor.  `RulesTop` is `Rules` of Spec/Mp4Rules.lean as propositions; the walker's verdict `clean` is the
+    "sequence of complete top-level boxes". -/
 theorem C05_accept_top_rules (s : Stream) (kind : SkipKind) (cfg : Config) (r : Sanitized)
     (h : Mp4.sanitize s kind cfg = .ok r) :
     ∃ bs, Spec.Mp4Walk.walkAll s 0 s.len cfg.cumulativeMdatBoxSize = .clean bs ∧
@@ -208,6 +212,23 @@ theorem C05_nometadata_iff (s : Stream) (kind : SkipKind) (cfg : Config) (r : Sa
   unfold Spec.Mp4Rules.NoMetadata Spec.Mp4Rules.top
   simp only [hw, Spec.Mp4Walk.Walk.boxes, hm, hd, decide_eq_true_eq]
   exact hiff
+
+/-- Soundness of the documented rules, in full: whatever the model accepts meets `Rules` of the independent
+    specification (Spec/Mp4Rules.lean) — for every stream, configuration and kind of cursor. -/
+theorem C05_accept_rules (s : Stream) (kind : SkipKind) (cfg : Config) (r : Sanitized)
+    (h : Mp4.sanitize s kind cfg = .ok r) :
+    Spec.Mp4Rules.Rules s ⟨cfg.maxMetadataSize, cfg.cumulativeMdatBoxSize⟩ = true := by
+  obtain ⟨bs, hw, hr, _⟩ := C05_accept_top_rules s kind cfg r h
+  exact rules_of_top s _ bs (by unfold Spec.Mp4Rules.top; exact hw) hr
+
+/-- `Spec_C05` has no complaint about a "nothing to do" answer of the model -/
+theorem C05_spec_noop (s : Stream) (kind : SkipKind) (cfg : Config) (r : Sanitized)
+    (h : Mp4.sanitize s kind cfg = .ok r) (hm : r.metadata = none) :
+    Spec.Mp4Rules.Spec_C05 s ⟨cfg.maxMetadataSize, cfg.cumulativeMdatBoxSize⟩ (.noop r.data.offset r.data.len) = none := by
+  have h1 := C05_accept_rules s kind cfg r h
+  have h2 := (C05_nometadata_iff s kind cfg r h).mp hm
+  unfold Spec.Mp4Rules.Spec_C05
+  simp [h1, h2]
 
 /-- The constants the model uses are the ones in the source (extracted on every run): the ftyp limit, the
     default metadata limit, the compatible brand and the reader's look-ahead. -/
